@@ -540,7 +540,70 @@ fn while_communicating(ctx: &mut Ctx, rng: &mut Rng, i: u64) {
     run::end_case();
 }
 
+/// Launches that fail between fork and exec while other commands are alive: the forked child holds a copy of every
+/// descriptor of the caller until it execs or exits, so it must do one of the two at once - neither return into the
+/// caller's code nor sit there waiting.
+fn failing_launch_among_live_children(ctx: &mut Ctx, rng: &mut Rng, i: u64) {
+    run::begin_case();
+    let dir = ctx.scratch("c08f");
+    // a live command with all three streams piped
+    let exe_a = spawn::report_exe(ctx, &dir, "a", "h");
+    let ma = run::monitored(|| Popen::create(&[exe_a.clone().into_os_string()], PopenConfig { stdin: Redirection::Pipe, stdout: Redirection::Pipe, stderr: Redirection::Pipe, ..Default::default() }));
+    let pa = match ma.result {
+        Some(Ok(p)) => p,
+        _ => {
+            ctx.inconclusive("first command could not be started", J::Null);
+            run::end_case();
+            return;
+        }
+    };
+    let _ = spawn::get_report(&exe_a, 3000);
+    let exe_b = spawn::report_exe(ctx, &dir, "b", "x");
+    let how = ["identity-refused", "exec-fails:ETXTBSY", "exec-fails:EAGAIN", "exec-fails:ENOMEM", "chdir-refused"][(i % 5) as usize];
+    let mut cfg = PopenConfig { stdout: if rng.chance(500) { Redirection::Pipe } else { Redirection::None }, ..Default::default() };
+    match how {
+        "identity-refused" => {
+            if rng.chance(500) {
+                cfg.setuid = Some(u32::MAX);
+            } else {
+                cfg.setgid = Some(u32::MAX);
+            }
+        }
+        "chdir-refused" => cfg.cwd = Some(dir.join("no/such/dir").into_os_string()),
+        _ => {
+            let e = match how {
+                "exec-fails:ETXTBSY" => libc::ETXTBSY,
+                "exec-fails:EAGAIN" => libc::EAGAIN,
+                _ => libc::ENOMEM,
+            };
+            plan::add(Rule { kind: k::EXECVE, scope: plan::SCOPE_CHILD, nth: 0, fd: -1, act: plan::ACT_FAIL, val: e as i64, prob: 1000 });
+        }
+    }
+    let m = run::monitored(|| Popen::create(&[exe_b.clone().into_os_string()], cfg));
+    let evs = m.events();
+    ctx.count("failing_launches_while_another_command_is_alive", 1);
+    let result_text = format!("{:?}", m.result.as_ref().map(|r| r.as_ref().map(|_| "Popen").map_err(|e| e.to_string())));
+    let child_events: Vec<String> = evs.iter().filter(|e| e.child != 0).map(ilog::fmt_ev).take(40).collect();
+    let w = |extra: J| J::obj().set("failure", J::s(how)).set("result", J::s(&result_text)).set("child_side_events", J::arr_s(&child_events)).set("detail", extra);
+    if ilog::child_escapes() > 0 {
+        ctx.violation(&format!("C08/forked-copy-of-the-caller-lives-on/{}", how), "the child forked for the failing launch returned into the caller's code: a second copy of the caller, holding the parent's side of every pipe of every live command", w(J::Null));
+    }
+    let naps: Vec<String> = evs.iter().filter(|e| e.child != 0 && e.kind == k::NANOSLEEP).map(ilog::fmt_ev).collect();
+    if !naps.is_empty() {
+        ctx.violation(&format!("C08/forked-child-sleeps-before-exec/{}", how), "the forked child went to sleep between fork and exec while holding a copy of every descriptor of the caller (the pipe ends of all live commands included): end-of-file cannot propagate for as long as it sleeps", w(J::arr_s(&naps)));
+    }
+    if let Some(Ok(mut p)) = m.result {
+        let _ = p.wait();
+    }
+    inspect::kill_descendants();
+    drop(pa);
+    ctx.distinct(&format!("failing|{}|{}", how, i % 11));
+    run::end_case();
+}
+
 pub fn run(ctx: &mut Ctx) {
+    let nf = ctx.n(100, 2000);
+    ctx.family("failing-launch-among-live-children", nf, failing_launch_among_live_children);
     let nw = ctx.n(210, 4000);
     ctx.family("while-communicating", nw, while_communicating);
     let nx = ctx.n(120, 1500);
